@@ -56,6 +56,14 @@ func (h *simHook) Wait(what string) {
 }
 
 //go:norace
+func (h *simHook) Atomic() {
+	if !h.s.Active() {
+		return
+	}
+	h.s.Point("atomic", "atomic", "")
+}
+
+//go:norace
 func (h *simHook) Unsupported(what string) { h.s.NoteUnsupported(what) }
 
 //go:norace
